@@ -794,8 +794,14 @@ func writeEvidence(root string, p *Prop, tier string, seed uint64, seeds []uint6
 		"violations":  viols,
 	}
 	b, _ := json.MarshalIndent(ev, "", " ")
-	os.MkdirAll(filepath.Join(root, "evidence"), 0o755) //nolint:errcheck
-	return os.WriteFile(filepath.Join(root, "evidence", p.ID+".json"), b, 0o644)
+	dir := filepath.Join(root, "evidence")
+	if r := os.Getenv("VERIF_REPO"); r != "" && r != "/repo" {
+		// a run against another source tree (a seeded change in a scratch
+		// worktree) is not evidence about /repo: kept apart
+		dir = filepath.Join(root, ".build", "evidence-of-other-tree")
+	}
+	os.MkdirAll(dir, 0o755) //nolint:errcheck
+	return os.WriteFile(filepath.Join(dir, p.ID+".json"), b, 0o644)
 }
 
 // workerProcs is the GOMAXPROCS of worker, replay and minimiser processes. One
